@@ -319,6 +319,7 @@ _FLIP = {"<": ">", "<=": ">=", ">": "<", ">=": "<="}
 _NEG = {">": "<=", ">=": "<", "<": ">=", "<=": ">", "==": "!=", "!=": "=="}
 
 
+_NONNULL_CALLS = {"len", "int", "float", "abs", "max", "min", "sum", "round", "sqrt", "log", "exp", "floor", "ceil", "list", "dict", "tuple", "set", "sorted", "range", "bool", "str", "any", "all", "copy.copy", "copy.deepcopy"}
 NONNULL = set()  # atoms known not to be None (set by the evaluator per run)
 
 
@@ -369,6 +370,11 @@ def mk_cmp(op, a, b):
                 return FALSE
             if op == "!=":
                 return TRUE
+    if op in ("==", "!="):
+        for x, y in ((a, b), (b, a)):
+            ax = x.single_atom()
+            if y == NONE and ax is not None and ax[0] == "call" and (ax[1].startswith(("numpy.", "scipy.", "pandas.")) or ax[1] in _NONNULL_CALLS):
+                return const(op == "!=")
     d = a - b
     if d.is_const():
         v = d.const_value()
